@@ -8,8 +8,11 @@ import N0Verif.Py.Basic
   together with the offset at which it starts and the value of the local variable
   `offset` after it (what the harness reads from the generator frame).
 
-  The model follows the code **with fix C16-a applied** (`if _len < 0: raise ValueError`).
-  `stepOld` is the step of the code before the fix; it is used only by the
+  The model follows the code **with fixes C16-a and C16-c applied**
+  (`parse_tlv`: `if _len < 0: raise ValueError`; `generate_tlv`: a one-character `len_padding`
+  that `int()` does not read through — `int(pad + pad + '1') != 1` or `ValueError` — is refused
+  with `AssertionError` before anything is written).
+  `stepOld` is the step of the code before fix C16-a; it is used only by the
   counter-example theorems of `Props/C16.lean`.
 
   Scope: `tag_fieldlen`, `len_fieldlen` are natural numbers, the paddings of
@@ -155,17 +158,31 @@ def genEntry (tl ll : Nat) (tp lp : Char) (tag value : Str) : Except PyErr Str :
     else .error .AssertionError
   else .error .AssertionError
 
-/-- `generate_tlv(dict(d), tl, ll, tp, lp)`; entries are produced in order, the first
-entry that does not fit raises -/
-def generateTlv (tl ll : Nat) (tp lp : Char) : List (Str × Str) → Except PyErr Str
+/-- the `''.join(… for _tag, _value in input_dict.items())` of `generate_tlv`: entries are
+produced in order, the first entry that does not fit raises -/
+def genEntries (tl ll : Nat) (tp lp : Char) : List (Str × Str) → Except PyErr Str
   | [] => .ok []
   | (t, v) :: rest =>
     match genEntry tl ll tp lp t v with
     | .error e => .error e
     | .ok e =>
-      match generateTlv tl ll tp lp rest with
+      match genEntries tl ll tp lp rest with
       | .error e' => .error e'
       | .ok r => .ok (e ++ r)
+
+/-- the probe of fix C16-c, as the code has it: `try: readable = int(f"{pad}{pad}1") == 1`
+`except ValueError: readable = False` (`len_padding` a single character).  It holds exactly for
+`'0'` and the characters `int()` strips (`lenPadOk_iff` in `Proofs/Tlv.lean`). -/
+def lenPadOk (lp : Char) : Bool := pyInt [lp, lp, '1'] == some 1
+
+/-- scope of the padding check: the probe hands the padding to `int()` (see `intInScope`); a
+Unicode decimal zero such as U+0660 is read through by the real `int()` and is outside the model -/
+def padInScope (lp : Char) : Bool := intInScope [lp]
+
+/-- `generate_tlv(dict(d), tl, ll, tp, lp)`: the probe of `len_padding` (`if not readable:
+raise_exception(str)` = `AssertionError`, raised before any entry is looked at), then the entries -/
+def generateTlv (tl ll : Nat) (tp lp : Char) (d : List (Str × Str)) : Except PyErr Str :=
+  if lenPadOk lp then genEntries tl ll tp lp d else .error .AssertionError
 
 /-! ### vocabulary of the property statements -/
 
@@ -173,8 +190,9 @@ def generateTlv (tl ll : Nat) (tp lp : Char) : List (Str × Str) → Except PyEr
 def Fits (tl ll : Nat) (d : List (Str × Str)) : Prop :=
   ∀ e ∈ d, e.1.length ≤ tl ∧ (decimal e.2.length).length ≤ ll
 
-/-- `int()` reads a length field back: the hypothesis on `pyInt` and `len_padding`
-under which the round trip holds -/
+/-- `int()` reads a length field back: what the round trip needs of the reader `pyInt`
+for the padding `lp` (true of Python's `int()` for every padding `generate_tlv` accepts:
+`C16_pyint_reads_accepted`) -/
 def IntReads (pyInt : Str → Option Int) (ll : Nat) (lp : Char) : Prop :=
   ∀ n : Nat, (decimal n).length ≤ ll → pyInt (rjust ll lp (decimal n)) = some (n : Int)
 
